@@ -40,6 +40,12 @@ CLAIMS = {
  "C17": ("constant-table extraction (switch / map literal) of String and FromString for the three enumerations, checked to be mutually inverse on every declared constant; struct-tag and source agreement of the auxiliary marshal structs",
          "Exact for the enumeration clause (every value maps to its name and back). Round trips of whole Args/Statement/Result values are NOT decided.",
          "go/types constant evaluation"),
+ "C06": ("CFG dominance over the 'block broken' gate protocol of readBlocksAndEvaluate (relational guard on the disk-derived IPv4 count, every use of disk-derived counts behind the gate, every mark reaches a counting gate), Engler-style contradiction rule on GPDir.TimeRange callers (has-blocks test), encoder &x[0] rule, decode guards derived from the layout, read-path rule, field coverage",
+         "Decides the guard structure a crash-free reader needs and the accounting of skipped blocks; 'never crashes for all byte-level mutations' as such needs arithmetic bounds reasoning or fuzzing and is NOT decided.",
+         "go/types + go/cfg; bitpack.Len/UnpackInto are total (read once, trusted)"),
+ "C12": ("exhaustive evaluation of BlocksBefore / BlocksAfter / the query block filter over the order type of a block's timestamp against the bound; value-origin rule on the blocks handed to the subtraction; field coverage of the per-block statistics and of Add/Sub",
+         "Decides that the listing subtracts exactly the blocks the query skips and that the subtracted statistics are complete. The sums as numbers and day-boundary arithmetic are NOT decided.",
+         "go/types; block lists are sorted by timestamp (writer appends; C03 rejects non-monotone histories)"),
  "C23": ("per-path packed-record layout extraction (index/slice/unsafe-cast/copy at cursor+const) with writer/reader table comparison",
          "Decides that every field LocalBuffer.Add stores lies inside the cursor stride, fields are disjoint, and Add/Next agree on offset, width, stride and version flag per role; refusal stores nothing. Exact for the layout clause (the one the defect F11 lived in); FIFO behaviour over operation sequences is not decided.",
          "go/types + go/cfg; gc/amd64 sizes for unsafe casts"),
